@@ -82,3 +82,11 @@ Theorem C02_source_wait_for_value : forall debug,
           [VStr "published value"; VStr "published error"])%list.
 Proof. exact tie_wait_for_value. Qed.
 Print Assumptions C02_source_wait_for_value.
+
+(* waiters read with the SkipRead flag switched off on top of the caller's context (withoutSkipRead), whatever it held *)
+From Cache Require Import TieCtx.
+Theorem C02_source_waiter_context : forall bs,
+  run_ctx_fn fn_withoutSkipRead bs = Some (enc_ctx (("skipReadCtxKey", VB false) :: bs)) /\
+  skip_flag (("skipReadCtxKey", VB false) :: bs) = false.
+Proof. intros bs. split; [exact (proj2 (tie_with_skip_read bs))|reflexivity]. Qed.
+Print Assumptions C02_source_waiter_context.
